@@ -143,6 +143,7 @@ class Bench:
         self.n_llgo_builds = 0
         self.toolchain_crashes = []
         self.build_failures = []
+        self.reported_seeds = set()
         self.min_budget = 12 if ctx.tier == "quick" else 150      # minimiser tests for the whole run
 
     def write(self, progs, npk, tag):
@@ -165,12 +166,21 @@ class Bench:
         if p.returncode == 0 and os.path.exists(out):
             return [(out, progs)]
         log = (p.stdout + p.stderr)
+        if depth == 0 and not self.trivial_ok(opt):
+            raise HarnessBuildError("llgo %s cannot build even `func main() { println(1) }`; output of the batch build:\n%s" % (opt, log[-3000:]))
         if len(progs) == 1:
             crash = "LLVMRunPasses" in log and "SIGSEGV" in log
             (self.toolchain_crashes if crash else self.build_failures).append((progs[0], npk, opt, log[-3000:] if not crash else log[:600]))
             return []
         h = len(progs) // 2
         return self.llgo_parts(progs[:h], npk, opt, tag, depth + 1) + self.llgo_parts(progs[h:], npk, opt, tag, depth + 1)
+
+    def trivial_ok(self, opt):
+        d = os.path.join(self.ctx.scratch, "mod-trivial")
+        shutil.rmtree(d, ignore_errors=True)
+        write_module(d, {"main.go": "package main\n\nfunc main() { println(1) }\n"})
+        p = llgo_build(self.ctx, d, os.path.join(d, "prog"), opt, timeout=1800)
+        return p.returncode == 0
 
     def run_all(self, binary, progs):
         def one(P):
@@ -231,6 +241,21 @@ def of_spec(before, after):
                 return "load %s moved after its use %s" % (l, x)
             if x in items[l][1] and pa[l] < pa[x]:
                 return "load %s moved before the definition of its operand %s" % (l, x)
+    # the documented purpose (gc's order for `return o, o.mutate()`): unless a store to the alloc or a use of the loaded
+    # value between the load and the Return forbids it, the load ends up after the LAST call that takes the alloc's address
+    if rets:
+        r = rets[-1]
+        for l in des:
+            a = items[l][0][1:]
+            if pb[l] > pb[r]:
+                continue
+            between = [x for x in order if pb[l] < pb[x] < pb[r]]
+            blocked = any((items[x][0].startswith("S") and a in items[x][0][1:].split(".")) or l in items[x][1] for x in between)
+            if blocked:
+                continue
+            late = [x for x in after if pa[l] < pa[x] < pa[r] and items[x][0].startswith("C") and a in items[x][0][1:].split(".")]
+            if late:
+                return "load %s of alloc %s still precedes the call %s that takes the alloc's address" % (l, a, late[-1])
     return None
 
 
@@ -407,6 +432,10 @@ def report_disagreement(ctx, bench, P, npk, opt, got, want):
     if cls and ctx.match_known(cls):
         ctx.report(cls, diff, {})
         return
+    if P.seed in bench.reported_seeds:          # the same program already reported under another configuration
+        ctx.log("llgo %s also disagrees on seed %s (%d packages): %s" % (opt, P.seed, npk, diff))
+        return
+    bench.reported_seeds.add(P.seed)
     ctx.log("llgo %s disagrees with the reference on seed %s (%d packages): %s" % (opt, P.seed, npk, diff))
     # minimise: delete statements while the disagreement (llgo at this level vs reference) persists
     d = os.path.join(ctx.scratch, "min")
